@@ -61,7 +61,10 @@ HASH_ITER = re.compile(r"std::collections::hash::(map::HashMap|set::HashSet)(::)
                        r"symmetric_difference|union|intersection)$")
 NONDET = re.compile(r"^(std::time::|std::env::|std::process::id|std::thread::current|rand(_core)?::|getrandom::|fastrand::|"
                     r"std::hash::random::RandomState::new|std::collections::hash::map::RandomState::new|std::fs::|std::net::|"
-                    r"std::io::stdio::stdin)|SystemTime::now|Instant::now")
+                    r"std::io::stdio::stdin)|SystemTime::now|Instant::now|"
+                    # process-wide mutable state: a counter or cell that outlives one compile makes the second run differ from the first
+                    r"sync::atomic::Atomic\w*(::<\w+>)?::(fetch_\w+|store|swap|compare_exchange\w*)$|thread::local::LocalKey<.*>::(with|set|replace|take)\w*$|"
+                    r"sync::(once_lock::OnceLock|lazy_lock::LazyLock|mutex::Mutex|rwlock::RwLock)<.*>::(get_or_init|set|lock|write|force)$")
 NONDET_OK = {("rust::compile", "std::fs::read_to_string"): "reads the custom template named by the external configuration "
                                                            "(target = \"custom\"); the three built-in targets do not reach it"}
 
@@ -754,6 +757,28 @@ def run(chk, facts, tier, only=None):
                         used.add(r_["res"].get("path"))
             chk.expect(set(tab) <= used, f"escaper-uses-table:{name}", f"{key} no longer tests its argument against {sorted(set(tab) - used)}",
                        ok_detail="KEYWORDS.contains(<the name>)")
+            # ... and the membership test decides alone: conjoined with another condition (`!modified && KEYWORDS.contains(..)`) there are
+            # names in the table that are emitted unescaped
+            weakened = []
+            for i_ in nodes(h["body"], "if"):
+                cnd = unblock(i_["c"])
+                def conj_atoms(e_, acc):
+                    e_ = unblock(e_)
+                    if e_.get("k") == "bin" and e_.get("op") == "And":
+                        conj_atoms(e_["a"], acc)
+                        conj_atoms(e_["b"], acc)
+                    else:
+                        acc.append(e_)
+                    return acc
+                atoms = conj_atoms(cnd, [])
+                has_tab = [a_ for a_ in atoms if any(x.get("k") == "mcall" and x["m"] == "contains" and unblock(x["recv"]).get("k") == "path"
+                                                      and (unblock(x["recv"]).get("res") or {}).get("path") in tab for x in walk(a_))]
+                if has_tab and len(atoms) > 1:
+                    weakened.append(i_)
+            chk.expect(not weakened, f"escaper-table-decides-alone:{name}",
+                       f"{key}: the keyword-table test is combined with another condition by `&&` (line {weakened[0].get('ln') if weakened else ''}): a name that "
+                       f"is in the table but fails the other condition is emitted as a bare keyword",
+                       where=f"{h['span']['file']}:{weakened[0].get('ln')}" if weakened else None, ok_detail="the table test is the whole condition")
 
     for rid, desc, f in (("C19.R1", "totality: panicking arms, unwraps and indexing of the generators are within the justified inventory", r1),
                          ("C19.R2", "determinism: no hash-order iteration, clock, random or environment access reachable from compile", r2),
